@@ -17,6 +17,8 @@ THEOREMS = [
     "Remoc.Table.Sys.listen_queue_has_room",
     "Remoc.Table.Sys.pairs_right_global",
     "Remoc.Table.Sys.pairs_mutual",
+    "Remoc.Table.Sys.resolves_once",
+    "Remoc.Table.Sys.pending_only_if_held",
 ]
 RULE = ("same runs as C07. Predicates on the real run: unanswered OpenPort requests on the wire never exceed the connect_queue the "
         "peer advertised (at every prefix); every connect/accept/inspect/request call returns at most once and none is pending "
